@@ -428,6 +428,8 @@ class Gen:
             else:
                 f = r.choice(self.handlers)
             n = r.choice([0, 1, 1, 2, 3])
+            if f == "return":
+                n = min(n, 1)
             return ["call", f] + [self.expr(env, depth) for _ in range(n)]
         if c < 0.94:
             return ["mcall", self.receiver(env), r.choice(METHODS)] + [self.expr(env, depth) for _ in range(r.choice([0, 1, 2]))]
